@@ -172,6 +172,18 @@ def metamorphic(ctx, st, S, P, atol, rng, w, dims, seed, n_hint=4, real=False):
         ctx.fail("search on the permuted structure raised %s" % type(exc).__name__, witness=w)
     else:
         compare(ctx, st, base, r, "permutation of the atom list", w, rename={j: int(perm[j]) for j in range(n)})
+    # 2b. the same reordering done the other way: copy the (already searched) object and assign re-ordered arrays
+    S2b = S.copy()
+    S2b.positions = np.asarray(S.positions, float)[perm]
+    S2b.atom_types = np.asarray(S.atom_types)[perm]
+    S2b.charges = np.asarray(S.charges)[perm]
+    S2b.groups = np.asarray(S.groups)[perm]
+    if len(S.extra_atom_labels) == 0:
+        r, _, _, exc = run_search(S2b, P, atol, seed=seed)
+        if exc is not None:
+            ctx.fail("search on the re-ordered copy raised %s" % type(exc).__name__, witness=w)
+        else:
+            compare(ctx, st, base, r, "permutation by assigning re-ordered arrays to a copy", w, rename={j: int(perm[j]) for j in range(n)})
     # 3. rigid motion of the pattern
     R = G.random_rotation(rng)
     P3 = clone(P)
